@@ -102,7 +102,7 @@ class datasource(PluginType):
         except ContentException as ce:
             log.debug(ce)
             ce_tb = traceback.format_exc()
-            for reg_spec in dr.get_registry_points(self.component):
+            for reg_spec in dr.get_registry_points(self.component) or [self.component]:
                 broker.add_exception(reg_spec, ce, ce_tb)
             raise SkipComponent()
         except CalledProcessError as cpe:
